@@ -1,6 +1,6 @@
 use alloc::vec::Vec;
 
-use hashbrown::HashMap;
+use hashbrown::{HashMap, HashSet};
 use p3_field::Field;
 
 use super::analysis::AluKey;
@@ -14,6 +14,8 @@ use crate::types::WitnessId;
 pub(super) struct Deduplicator {
     rewrite: HashMap<WitnessId, WitnessId>,
     seen: HashMap<AluKey, WitnessId>,
+    /// Every witness slot read or written by an op kept so far.
+    mentioned: HashSet<WitnessId>,
 }
 
 impl Deduplicator {
@@ -21,6 +23,7 @@ impl Deduplicator {
         Self {
             rewrite: HashMap::new(),
             seen: HashMap::new(),
+            mentioned: HashSet::new(),
         }
     }
 
@@ -36,16 +39,77 @@ impl Deduplicator {
 
             if let Some((dup_out, canonical)) = self.detect_duplicate(&op) {
                 let root = canonical.resolve(&self.rewrite);
-                if dup_out != root {
-                    self.rewrite.insert(dup_out, root);
+                if dup_out == root {
+                    continue;
                 }
-                continue;
+                // A duplicate whose output slot a kept op already reads or writes (a public
+                // input, a `connect`-aliased result, ...) is the only op tying that slot to the
+                // canonical result: it stays, and checks the equality when it runs.
+                if !self.mentioned.contains(&dup_out) {
+                    self.rewrite.insert(dup_out, root);
+                    continue;
+                }
             }
 
+            self.mark_mentioned(&op);
             result.push(op);
         }
 
         (result, self.rewrite)
+    }
+
+    /// Records every witness slot `op` reads or writes.
+    fn mark_mentioned<F: Field>(&mut self, op: &Op<F>) {
+        match op {
+            Op::Const { out, .. } => {
+                self.mentioned.insert(*out);
+            }
+            Op::Public { out, .. } => {
+                self.mentioned.insert(*out);
+            }
+            Op::Alu {
+                a,
+                b,
+                c,
+                out,
+                intermediate_out,
+                ..
+            } => {
+                self.mentioned.insert(*a);
+                self.mentioned.insert(*b);
+                self.mentioned.insert(*out);
+                if let Some(c) = c {
+                    self.mentioned.insert(*c);
+                }
+                if let Some(acc) = intermediate_out {
+                    self.mentioned.insert(*acc);
+                }
+            }
+            Op::Hint {
+                inputs, outputs, ..
+            } => {
+                for id in inputs {
+                    self.mentioned.insert(*id);
+                }
+                for id in outputs {
+                    self.mentioned.insert(*id);
+                }
+            }
+            Op::NonPrimitiveOpWithExecutor {
+                inputs, outputs, ..
+            } => {
+                for group in inputs {
+                    for id in group {
+                        self.mentioned.insert(*id);
+                    }
+                }
+                for group in outputs {
+                    for id in group {
+                        self.mentioned.insert(*id);
+                    }
+                }
+            }
+        }
     }
 
     /// Returns `Some((duplicate_out, canonical_out))` when `op` duplicates an earlier ALU.
